@@ -126,12 +126,17 @@ type Options struct {
 	Kinds    map[string]bool // if non-nil, only these obligation kinds are generated as obligations... (filter at report)
 	Groups   []string
 	Want     func(ob *Obligation) bool // if non-nil, obligations it rejects are not solved (they stay assumptions)
+	// obligations whose name contains one of these are checked but NOT assumed afterwards: an obligation that is
+	// outside the claim (skip list) or known to fail by contradiction with the path condition (a lock that is held)
+	// must not make everything behind it vacuously true
+	NoAssume []string
 }
 
 func (sh *Shared) verifyFunc(fn *ssa.Function, opt Options) (res *FuncResult) {
 	res = &FuncResult{Func: fn.String()}
 	t0 := time.Now()
 	e := sh.newEngine()
+	e.noAssume = opt.NoAssume
 	defer func() {
 		if r := recover(); r != nil {
 			res.Err = fmt.Sprintf("engine panic: %v", r)
